@@ -569,6 +569,10 @@ def applyVerified (c : Core) (p : Proof) (cs : Changeset) (j0 : List SOp) (bu : 
     | none => (c.bitfield, header)
   finishApply c ol header bf (j0 ++ j1) p bu (c.tree.commit cs)
 
+/-- the oplog encoder copies every node hash into a 32-byte slot and fails on any other length (`as_array::<32>` in
+    `impl CompactEncoding for Node`); the wire decoder only produces 32-byte hashes, the in-process API accepts any -/
+def encodable (cs : Changeset) : Bool := cs.nodes.all (fun n => n.hash.length == 32)
+
 /-- `verify_and_apply_proof` -/
 def verifyAndApply (C : Crypto) (c : Core) (d : Disk) (p : Proof) : Step Bool :=
   if p.fork ≠ c.tree.fork then { core := c, result := .ok false } else
@@ -578,7 +582,9 @@ def verifyAndApply (C : Crypto) (c : Core) (d : Disk) (p : Proof) : Step Bool :=
     if !c.tree.commitable cs then { core := c, result := .ok false } else
     match dataStep c d p cs with
     | .error e => { core := c, result := .error e }
-    | .ok (j0, bu) => applyVerified c p cs j0 bu
+    | .ok (j0, bu) =>
+      -- the block's bytes are written before the entry is encoded
+      if encodable cs then applyVerified c p cs j0 bu else { core := c, result := .error .err, journal := j0 }
 
 end Core
 end HC
